@@ -9,6 +9,7 @@ every admitted action sequence.  No well-formedness hypothesis is needed.
 import Rl4co.Env.Pctsp
 import Rl4co.Spec.Pctsp
 import Rl4co.Proofs.OpShared
+import Rl4co.Proofs.PctspGenerated
 
 namespace Rl4co.Pctsp
 open Rl4co.Spec.Pctsp Rl4co.Prize
@@ -77,8 +78,9 @@ theorem tot_of_run (i : Inst) {s s' : State} {as : List Nat} (h : Run env i s as
   induction h with
   | nil s => simp [gatherSum]
   | @cons s s' a as _ _ _ ih =>
-    simp only [env, step] at ih
-    rw [ih]
+    have hs := step_tot i s a  -- through the generated `_step` expression and the `real_prize` token
+    simp only [env] at ih
+    rw [ih, hs]
     simp only [gatherSum, List.map_cons, List.sum_cons]
     omega
 
